@@ -1,6 +1,6 @@
 From Coq Require Import Sorting.Permutation.
 From Errdef Require Import Base.Str Base.StrOrd Base.Outcome Model.Core Model.Convert Model.Unmarshal
-  Check.UM Proofs.C10Proofs Proofs.C13Proofs Proofs.C12Proofs.
+  Check.UM Proofs.C10Proofs Proofs.SortFields Proofs.C13Proofs Proofs.C12Proofs.
 
 Definition entry := (anykey * rvalue)%type.
 Definition e_name (x : entry) : string := ak_name (fst x).
@@ -193,14 +193,15 @@ Theorem restored_partition c m k t fs st cs u e def :
   Permutation (map e_name (entries e)) (map fst fs) /\ rwf e.
 Proof.
   intros R Hk Hn E. rewrite unmarshal_unfold3, R in E. cbv zeta in E.
-  set (rs := map (fun nv => (fst nv, bind_field c def k (fst nv) (snd nv))) fs) in *.
+  set (rs := map (fun nv => (fst nv, bind_field c def k (fst nv) (snd nv))) (sort_fields fs)) in *.
   destruct (proj_panic (collect_fields rs)); [discriminate|].
   destruct (proj_fails (collect_fields rs)) eqn:Ff; [|discriminate].
   destruct (cres_of c cs) as [cs'|f|w]; try discriminate. inversion E; subst e; clear E.
   destruct (collect_as_flat_map rs) as [A [B _]].
   assert (P : Permutation (map e_name (entries (RErr def m (proj_typed (collect_fields rs)) (proj_unknown (collect_fields rs)) st cs')))
                           (map fst fs)).
-  { unfold entries. cbn [r_typed r_unknown]. rewrite A, B. apply (names_partition c def k fs). exact Ff. }
+  { unfold entries. cbn [r_typed r_unknown]. rewrite A, B.
+    eapply Permutation_trans; [apply (names_partition c def k (sort_fields fs)); exact Ff|apply sort_fields_names_perm]. }
   split; [exact P|]. split.
   - eapply Permutation_NoDup; [apply Permutation_sym; exact P|exact Hn].
   - cbn [r_typed]. rewrite A.
@@ -230,12 +231,7 @@ Theorem restored_all_deterministic c m k t fs fs' st cs u e e' def :
   rf_all e = rf_all e' /\ rf_len e = rf_len e'.
 Proof.
   intros R Hk Hn P E E'.
-  pose proof (deterministic c m k t fs fs' st cs u P) as D. rewrite E, E' in D.
-  destruct e as [d1 m1 ty1 un1 st1 cs1], e' as [d2 m2 ty2 un2 st2 cs2]. cbn in D.
-  destruct D as [-> [-> [Pt [Pu [-> ->]]]]].
-  destruct (restored_partition c m k t fs st cs u _ def R Hk Hn E) as [_ [Hnames _]].
-  split.
-  - rewrite !rf_all_is_sorted_entries. apply sort_perm_invariant; [|exact Hnames].
-    unfold entries. cbn [r_typed r_unknown]. apply Permutation_app; now apply Permutation_map.
-  - unfold rf_len. cbn [r_typed r_unknown]. now rewrite (Permutation_length Pt), (Permutation_length Pu).
+  assert (D : unmarshal c (DD m k t fs st cs u) = unmarshal c (DD m k t fs' st cs u))
+    by (unfold unmarshal; now rewrite (deterministic_top c m k t fs fs' st cs u P Hn)).
+  rewrite E, E' in D. inversion D; subst e'. split; reflexivity.
 Qed.
